@@ -1234,6 +1234,8 @@ func toString(v interface{}) string {
 		return string(val)
 	case fmt.Stringer:
 		return val.String()
+	case error:
+		return val.Error()
 	case Node:
 		return ""
 	}
